@@ -130,6 +130,22 @@ func judgeC03(rec *stats.Rec, c c03Case) (string, string) {
 				}
 				return "deprecated-verdict|" + n, fmt.Sprintf("Registry.ByName(%q).Execute reports %s, the registry run reports %s (object dated %s)", n, st, v[n].Status, date.UTC().Format(time.RFC3339))
 			}
+			// the copy is the caller's: whoever moves its window (exported fields of an exported type) moves the
+			// window the copy is judged by - around the object's date, one second either side
+			for wi, w := range [][2]time.Time{{date.Add(time.Second), {}}, {{}, date}, {date, date.Add(time.Second)}, {{}, date.Add(time.Second)}, {date.Add(-time.Second), date}} {
+				mine := run.Reg.ByName(n)
+				if mine == nil {
+					break
+				}
+				mine.EffectiveDate, mine.IneffectiveDate = w[0], w[1]
+				want := model.Window(w[0], w[1], date)
+				if got := mine.CheckEffective(c3); got != want {
+					return "deprecated-window|moved", fmt.Sprintf("Registry.ByName(%q) with its window set to [%s, %s) (variant %d): CheckEffective = %v for an object dated %s", n, fmtDate(w[0]), fmtDate(w[1]), wi, got, date.UTC().Format(time.RFC3339))
+				}
+				if r := mine.Execute(c3, run.Cfg); r != nil && !want && r.Status != lint.NA && r.Status != lint.NE && r.Status != lint.Fatal {
+					return "deprecated-window|moved", fmt.Sprintf("Registry.ByName(%q) with its window set to [%s, %s) (variant %d) reports %s for an object dated %s, outside that window", n, fmtDate(w[0]), fmtDate(w[1]), wi, r.Status, date.UTC().Format(time.RFC3339))
+				}
+			}
 		}
 		for _, src := range run.Reg.Sources() {
 			for _, dep := range run.Reg.BySource(src) {
